@@ -193,10 +193,34 @@ def _xml_for_error(result: Result) -> ET.Element:
 
 
 def _error_message_for(result: Result) -> str:
-    if result.status != Status.EXECUTED:
-        return error_message_for_error_info(result.error_info)
-    else:
-        return error_message_for_full_result(result.execution_result)
+    message = (
+        error_message_for_error_info(result.error_info)
+        if result.status != Status.EXECUTED
+        else
+        error_message_for_full_result(result.execution_result)
+    )
+    return _with_only_valid_xml_characters(message)
+
+
+def _with_only_valid_xml_characters(s: str) -> str:
+    """
+    An error message may quote arbitrary output from a program.
+    Characters that are not allowed in an XML document (most control characters)
+    are replaced, for the document to be well-formed.
+    """
+    return ''.join([
+        ch if _is_valid_xml_character(ord(ch)) else '\N{REPLACEMENT CHARACTER}'
+        for ch in s
+    ])
+
+
+def _is_valid_xml_character(code_point: int) -> bool:
+    return (
+            code_point in (0x9, 0xA, 0xD) or
+            0x20 <= code_point <= 0xD7FF or
+            0xE000 <= code_point <= 0xFFFD or
+            0x10000 <= code_point <= 0x10FFFF
+    )
 
 
 def _error_type(result: Result) -> str:
